@@ -148,6 +148,7 @@ EdgeNames == { <<"0", "0">>, <<"0", "1">>, <<" ", "0">>, <<"0", " ">>, <<" ", "0
                <<"a", " ", "b">>, Nines20 }
 EdgeNamesAll == EdgeNames \cup { SsizeMax, SsizeMaxP1, <<"+", "1">>, <<"1", "<ar0>">>, <<"<sup2>", "0">> }
 ADot0 == <<".", "0">>                                              \* "{0.0}": attribute access on argument 0
+ABigIdx == <<"[">> \o Nines20 \o <<"]">>                           \* "[99999999999999999999]": too many digits
 KwEdge == << <<"a">>, <<"b">>, <<"w">>, <<"0">>, <<"0", "0">>, <<"0", "1">>, <<" ", "0">>, <<"0", " ">>, <<" ", "0", " ">>,
              <<"+", "0">>, <<"-", "0">>, <<"-", "1">>, <<"0", "_", "0">>, <<"1", "_", "0">>, <<"0", "x", "0">>, <<"<sup2>">>,
              <<"<ar0>">>, <<"a", " ", "b">>, <<"+", "1">>, <<"1", "<ar0>">>, <<"<sup2>", "0">> >>
@@ -156,6 +157,12 @@ N1XLits   == << {}, {} >>
 N1XNames  == << EdgeNames \cup { <<"0">> }, { None, <<"0">> } >>
 N1XChains == << { None, ADot0, AReal }, { None } >>
 N1XPlain  == << { None }, { None } >>
+\* thorough, exhaustive: every edge form (also 2^63-1, 2^63, +1, mixed Unicode digits) x accessor x conversion x
+\* spec, followed by an auto / numbered / named field
+N2XNames  == << EdgeNamesAll \cup { <<"0">> }, { None, <<"0">>, <<"a">> } >>
+N2XChains == << { None, ADot0, AReal, AIdx0, ABigIdx }, { None } >>
+N2XConvs  == << { None, <<"!", "r">> }, { None } >>
+N2XSpecs  == << { None, <<":", "d">>, <<":", "{", "}">> }, { None } >>
 
 \* quick, exhaustively replayed: one field
 Q1XLits   == << XLitsAll >>
@@ -177,8 +184,8 @@ Q2XPos    == {"i1"}
 
 \* all components: one field over the complete menus
 F1XLits   == << XLitsAll >>
-F1XNames  == << NamesAll \cup EdgeNamesAll >>
-F1XChains == << ChainsAll \cup { ADot0, <<"[">> \o Nines20 \o <<"]">> } >>
+F1XNames  == << NamesAll >>
+F1XChains == << ChainsAll >>
 F1XConvs  == << ConvsAll >>
 F1XSpecs  == << SpecsAll >>
 F1XPos    == {"i1", "sx", "sd", "l1", "da", "none"}
@@ -186,8 +193,8 @@ F1XKw     == {"i1", "sd", "da"}
 
 \* two fields over the complete menus (simulation) / over reduced menus (thorough, exhaustive)
 F2XLits   == << XLitsAll, XLitsAll >>
-F2XNames  == << F1XNames[1], F1XNames[1] >>
-F2XChains == << F1XChains[1], F1XChains[1] >>
+F2XNames  == << NamesAll \cup EdgeNamesAll, NamesAll \cup EdgeNamesAll >>
+F2XChains == << ChainsAll \cup { ADot0, ABigIdx }, ChainsAll \cup { ADot0, ABigIdx } >>
 F2XConvs  == << ConvsAll, ConvsAll >>
 F2XSpecs  == << SpecsAll, SpecsAll >>
 T2XNames  == << NamesAll \cup { <<" ", "0">>, <<"-", "1">>, <<"<ar0>">> }, NamesAll >>
